@@ -15,6 +15,7 @@ mod quic;
 mod smoke;
 mod streams;
 mod timers;
+mod wakes;
 mod ws;
 
 use simcore::worker::Scenario;
@@ -51,6 +52,7 @@ fn main() {
     scenarios.extend(quic::scenarios());
     scenarios.extend(streams::scenarios());
     scenarios.extend(timers::scenarios());
+    scenarios.extend(wakes::scenarios());
     scenarios.extend(ws::scenarios());
     simcore::worker::main(&scenarios)
 }
